@@ -81,10 +81,20 @@ def flow(chk, pid, lemma_file, prop_file, search, n_corr, n_search, rule, decora
     for f in corr_fail:
         deep = True
     # ---- search on the implementation (property as stated)
-    n = n_search[1] if (chk.tier == "thorough" or chk.broken or deep) else n_search[0]
+    sizes = [n_search[1] if chk.tier == "thorough" else n_search[0]]
     if chk.tier != "thorough" and (chk.broken or deep):
-        n = min(n, 6 * n_search[0])
-    rc4, s, out4 = chk.bridge_json(search, [str(chk.seed), str(n)], timeout=1700)
+        sizes.append(6 * n_search[0])      # failing-input search: go deeper only if the normal size finds nothing
+    s, out4 = None, ""
+    for n in sizes:
+        rc4, s2, out4 = chk.bridge_json(search, [str(chk.seed), str(n)], timeout=1700 if chk.tier == "thorough" else 900)
+        if s2 is not None:
+            s = s2
+            if any(True for f_ in s2["failures"]
+                   if not any(k.get("property") == chk.pid and k.get("kind") == "finding" and k.get("signature") == f_["signature"]
+                              for k in chk.findings)):
+                break
+        elif s is not None:
+            break
     if s is None:
         chk.broken.append({"file": search, "item": "harness", "coqc_output": out4[-1500:]})
         s = {"evaluations": 0, "distinct": 0, "samples": [], "failures": [], "kinds": {}}
